@@ -63,6 +63,7 @@ impl Engine for GoldenEngine {
             sweeper: None,
             create_empty_file: false,
             allow_ambiguous: false,
+            ring: 0,
         };
         Scenario {
             engine: "golden".into(),
